@@ -350,6 +350,7 @@ static HANDLE want_in, want_out, want_err, want_exit;
 static bool want_wd, want_extra, want_extend;
 /* verdicts taken at the moment the program would start */
 static int cp_calls;
+static bool alias_in, cp_ok_nodup, cp_ok_std_inh;
 static bool cp_ok_std, cp_ok_list, cp_ok_inherit, cp_ok_cmd, cp_ok_env, cp_ok_cwd, cp_ok_flags, cp_ok_mode, cp_succeeded;
 static int thread_h = 6, process_h = 7;
 
@@ -379,9 +380,14 @@ BOOL CreateProcessW(LPCWSTR app, LPWSTR cmd, SECURITY_ATTRIBUTES *pa, SECURITY_A
     }
   }
   cp_ok_list = inherit && (flags & EXTENDED_STARTUPINFO_PRESENT) != 0 && si->cb == sizeof(STARTUPINFOEXW) &&
-               ex->lpAttributeList == list_ptr && list_state == 1 && list_updated && !stray && !dup && present[0] &&
+               ex->lpAttributeList == list_ptr && list_state == 1 && list_updated && !stray && present[0] &&
                present[1] && present[2] && present[3] && (pa == NULL || !pa->bInheritHandle) &&
                (ta == NULL || !ta->bInheritHandle);
+  /* the source itself says CreateProcessW rejects a list naming one handle twice, and handles the
+   * stderr = stdout case; whether that also matters for stdin shared with another stream cannot be
+   * settled without Windows and is left out of the claim */
+  cp_ok_nodup = alias_in || !dup;
+  cp_ok_std_inh = present[1] && present[2] && present[3];
   cp_ok_inherit = true;
   for (int k = 0; k < 4; k++) {
     int i = hidx(wanted[k]);
@@ -454,11 +460,15 @@ void harness(void)
     hobj[i].open = true;
     hobj[i].inherit = vp_bool();
   }
-  bool err_is_out = vp_bool(); /* stderr redirected to stdout: the same handle twice */
+  /* the same handle may serve two streams: stderr = stdout (what REPROC_REDIRECT_STDOUT produces),
+   * or the caller's own handle given for stdin and another stream */
+  int alias = vp_choice(0, 3);
+  bool err_is_out = alias == 1;
   want_exit = (HANDLE) &hobj[0];
   want_in = (HANDLE) &hobj[1];
-  want_out = (HANDLE) &hobj[2];
-  want_err = err_is_out ? want_out : (HANDLE) &hobj[3];
+  want_out = alias == 2 ? want_in : (HANDLE) &hobj[2];
+  want_err = alias == 1 ? want_out : alias == 3 ? want_in : (HANDLE) &hobj[3];
+  alias_in = alias >= 2;
   last_error = (DWORD) vp_choice(0, 20000); /* stale value from an earlier, unrelated call */
 
   /* One call site per (environment options, failing call): inside each branch the strings, their
@@ -471,7 +481,7 @@ void harness(void)
   int cfg = vp_choice(2 * VP_CFGSET, 2 * VP_CFGSET + 1); /* jobs are split by environment options */
   int fl = vp_choice(-1, 6);
   bool wd = vp_bool();
-  late_fail = vp_choice(6, 15);
+  late_fail = vp_choice(6, 23);
   int r = 0;
 #define RUN(k, f) \
   if (cfg == (k) && fl == (f)) { \
@@ -487,7 +497,7 @@ void harness(void)
 #else
   CFG(6) CFG(7)
 #endif
-  VP_MODEL_ASSERT(call_no <= 16, "failure positions cover every call");
+  VP_MODEL_ASSERT(call_no <= 24, "failure positions cover every call");
 
   bool something_failed = failed_calls > 0 || alloc_failures > 0;
   if (r < 0) {
@@ -505,6 +515,9 @@ void harness(void)
     VP_ASSERT(C10, cp_ok_std, "Windows: the child's standard handles are not the requested ones");
     VP_ASSERT(C11, cp_ok_list,
               "Windows: handle inheritance is not restricted to exactly the three streams and the exit handle");
+    VP_ASSERT(C10, cp_ok_std_inh && cp_ok_inherit,
+              "Windows: a standard handle of the child is not in the inherit list (or not inheritable): the stream is connected to nothing");
+    VP_ASSERT(C10, cp_ok_nodup, "Windows: stderr = stdout puts the shared handle into the inherit list twice (CreateProcessW rejects that)");
     VP_ASSERT(C11, cp_ok_inherit, "Windows: a handle of the inherit list is not inheritable when the child is created");
     VP_ASSERT(C03, cp_ok_cmd, "Windows: the command line is not the joined argument vector");
     VP_ASSERT(C03, cp_ok_env && cp_ok_flags, "Windows: the environment block is not parent entries (if extending) followed by the extra entries");
@@ -519,7 +532,8 @@ void harness(void)
   VP_ASSERT(C14, error_mode == 0x55u, "the caller's error mode is not restored");
 
   VP_COVER(r == 1 && err_is_out, "success with stderr = stdout handle");
-  VP_COVER(r == 1 && !err_is_out && want_wd && want_extra, "success with working directory and extra entries");
+  VP_COVER(r == 1 && alias == 2, "success with stdout = stdin handle");
+  VP_COVER(r == 1 && alias == 0 && want_wd && want_extra, "success with working directory and extra entries");
   VP_COVER(r < 0 && cp_calls == 1, "CreateProcessW fails");
   VP_COVER(r < 0 && alloc_failures == 1 && failed_calls == 0, "an allocation fails");
   VP_COVER(r < 0 && list_state == 2, "failure after the attribute list was initialized");
